@@ -48,8 +48,8 @@ def fill(reg0):
     reg('C09', 'model_checking',
         'Stateless model checking of the real Server.run + 4 PlayerThread.run + 4 conforming scripted clients under a scheduler that owns '
         'every threading/queue/socket/time primitive: all schedules with <= d deviations from the default scheduler (d=1 quick, d=2 thorough), '
-        'the 9 priority schedules (one thread starved as long as anything else can run), and a state-cached search without any schedule '
-        'bound for sessions with sequential arrivals; deadlock = no enabled thread, livelock = step horizon.',
+        'the 9 priority schedules (one thread starved as long as anything else can run), and a state-cached depth-first search without a deviation '
+        'bound (capped number of executions) for sessions with sequential arrivals; also clients that stay connected after End of session, a network that delivers every message in two pieces, two table managers in one process; deadlock = no enabled thread, livelock = step horizon.',
         'Trusted: virtual Event/Barrier/Thread/Queue/socket models (bound to CPython by mc/sched/conformance.py); safe-operation reduction '
         '(SPSC channels, asserted at run time and cross-checked with every operation visible); sessions of 1-3 boards.',
         'stateless schedule exploration of the implementation with deviation bounding + state-cached unbounded DFS', 'DESIGN.md 3.2, 4/C09', B)
